@@ -671,6 +671,15 @@ def desummed(fn):
             for fld in ("body", "orelse", "finalbody"):
                 if isinstance(getattr(st, fld, None), list) and not isinstance(st, (ast.FunctionDef, ast.ClassDef)):
                     setattr(st, fld, rewrite(getattr(st, fld)))
+            if isinstance(st, ast.Return) and isinstance(st.value, ast.Call) and isinstance(st.value.func, ast.Name) and \
+                    st.value.func.id == "sum" and len(st.value.args) == 1 and not st.value.keywords:
+                # return sum(..)  ->  _total = sum(..) ; return _total
+                a_ = ast.Assign(targets=[ast.Name(id="_total", ctx=ast.Store())], value=st.value, type_comment=None)
+                r_ = ast.Return(value=ast.Name(id="_total", ctx=ast.Load()))
+                ast.copy_location(a_, st)
+                ast.copy_location(r_, st)
+                out += rewrite([a_]) + [r_]
+                continue
             v = st.value if isinstance(st, ast.Assign) and len(st.targets) == 1 and isinstance(st.targets[0], ast.Name) else None
             if isinstance(v, ast.Call) and isinstance(v.func, ast.Name) and v.func.id == "sum" and len(v.args) == 1 and \
                     not v.keywords:
